@@ -1,8 +1,8 @@
 (* Extract.v — extraction of the executable models to OCaml (ExtrOcamlBasic directives only). *)
 Require Extraction.
 Require Import ExtrOcamlBasic.
-From AD Require Import Bytes Outcome Gen Gzip Ar Fs Helper Config PycHeader Walk Brp Javadoc Marshal Pyc PycRoundTrip Zip Multi MultiProofs.
+From AD Require Import Bytes Outcome Gen Gzip Ar Fs Helper Config PycHeader Walk Brp Javadoc Marshal Pyc PycRoundTrip Zip ZipEndToEnd Multi MultiProofs.
 Extraction Language OCaml.
 Set Extraction KeepSingleton.
 Extraction "model.ml" profile gzip_init gzip_process ar_process ar_opens_output pyc_zero_mtime pyc_header javadoc_process pyc_process zip_process zip_init class_of bytes_after
-  requested_handlers make_handlers sanitize_epoch main_verdict walk init_wstate mk_hdesc brp_check run_handler init_sim obs tmp_path trace_of s_fs s_hist mk_fs mk_env mk_inode is_mutating multi_replay pyc_domain.
+  requested_handlers make_handlers sanitize_epoch main_verdict walk init_wstate mk_hdesc brp_check run_handler init_sim obs tmp_path trace_of s_fs s_hist mk_fs mk_env mk_inode is_mutating multi_replay pyc_domain zip_domain.
